@@ -891,11 +891,12 @@ def check_C17(ctx):
     defs = {"bool": [["false"], ["true"]], "string": [[""], ["dflt"], ['q"uo\\te'], ["build-%d"], ["100%"]], "int": [["0"], ["-42"]], "float": [["0"], ["2.5"], ["1e21"]],
             "strings": [[], ["a", "b c"], ["%s", "x%"]], "ints": [[], ["4", "5"]], "floats": [[], ["0.5", "100000"]]}
     floats = set()
-    for _ in range(ctx.scale(700, 7000)):
+    for k_ in range(ctx.scale(700, 7000)):
+        big = k_ % 35 == 0        # a few commands with many options and many sub-commands
         def node(name, dep):
             decls = []
             onames = rng.sample(["a", "b all", "force f", "verbose", "o", "n num", "out", "long-name x", "p path",
-                                 "q s", "t T tee", "u uu U", "w W"], rng.randint(0, 4))
+                                 "q s", "t T tee", "u uu U", "w W"], rng.randint(0, 4) if not big else rng.randint(9, 13))
             used = set()
             for nm in onames:
                 if any(x in used for x in nm.split()):
@@ -913,7 +914,7 @@ def check_C17(ctx):
                           hidden=rng.random() < 0.2, policy=0 if dep == 2 else None,
                           spec=rng.choice(["", "", " [OPTIONS] "]) if not decls else "")
             if dep > 0:
-                c["subs"] = [node(n, dep - 1) for n in rng.sample(gen.ALIAS_POOL, rng.randint(0, 3))]
+                c["subs"] = [node(n, dep - 1) for n in rng.sample(gen.ALIAS_POOL, rng.randint(0, 3) if not big else rng.randint(6, len(gen.ALIAS_POOL)))]
             return c
         root = node("app", 2)
         # a random command of the tree
